@@ -20,7 +20,7 @@ for d in sorted(glob.glob(HERE + '/seeded/*/')):
             res.append((sid, prop, 'PATCH DOES NOT APPLY')); continue
         t0 = time.time()
         try:
-            r = sh('cd %s && VERIF_BUDGET_S=%s ./check %s quick' % (HERE, budget, prop))
+            r = sh('cd %s && VERIF_EVIDENCE_DIR=%s/.build/evidence-of-other-trees VERIF_BUDGET_S=%s ./check %s quick' % (HERE, HERE, budget, prop))
         finally:
             sh('git -C %s checkout -- . && git -C %s clean -fdq' % (REPO, REPO))
         caught = any(l.startswith('VIOLATION') for l in r.stdout.splitlines())
